@@ -1,0 +1,116 @@
+// Copyright 2017 Pilosa Corp.
+//
+// Licensed under the Apache License, Version 2.0 (the "License");
+// you may not use this file except in compliance with the License.
+// You may obtain a copy of the License at
+//
+//     http://www.apache.org/licenses/LICENSE-2.0
+//
+// Unless required by applicable law or agreed to in writing, software
+// distributed under the License is distributed on an "AS IS" BASIS,
+// WITHOUT WARRANTIES OR CONDITIONS OF ANY KIND, either express or implied.
+// See the License for the specific language governing permissions and
+// limitations under the License.
+
+//go:build verif
+// +build verif
+
+package pilosa
+
+import (
+	"bytes"
+	"context"
+	"path/filepath"
+
+	"github.com/pilosa/pilosa/roaring"
+)
+
+// Export shims for the verification harness (/verif, property C16). Add-only, tag-guarded.
+
+// VerifC16Frag is a handle on a real fragment (stand-alone, or one owned by a holder).
+type VerifC16Frag struct {
+	f *fragment
+}
+
+// VerifC16OpenFragment opens a stand-alone fragment (shard 0, ranked cache) on a file in dir.
+func VerifC16OpenFragment(dir string) (*VerifC16Frag, error) {
+	f := newFragment(filepath.Join(dir, "0"), "i", "f", viewStandard, 0, 0)
+	f.CacheType = CacheTypeRanked
+	f.RowAttrStore = nopStore
+	if err := f.Open(); err != nil {
+		return nil, err
+	}
+	return &VerifC16Frag{f: f}, nil
+}
+
+// VerifC16HolderFragment returns (creating it if needed) the standard-view fragment of a field.
+func VerifC16HolderFragment(h *Holder, index, field string, shard uint64) (*VerifC16Frag, error) {
+	fld := h.Field(index, field)
+	if fld == nil {
+		return nil, ErrFieldNotFound
+	}
+	view, err := fld.createViewIfNotExists(viewStandard)
+	if err != nil {
+		return nil, err
+	}
+	f, err := view.CreateFragmentIfNotExists(shard)
+	if err != nil {
+		return nil, err
+	}
+	return &VerifC16Frag{f: f}, nil
+}
+
+func (v *VerifC16Frag) Close() error                           { return v.f.Close() }
+func (v *VerifC16Frag) SetBit(row, col uint64) (bool, error)   { return v.f.setBit(row, col) }
+func (v *VerifC16Frag) ClearBit(row, col uint64) (bool, error) { return v.f.clearBit(row, col) }
+func (v *VerifC16Frag) ClearRow(row uint64) (bool, error)      { return v.f.clearRow(row) }
+
+// Import runs bulkImport; columns are absolute.
+func (v *VerifC16Frag) Import(rows, cols []uint64, clear bool) error {
+	return v.f.bulkImport(append([]uint64(nil), rows...), append([]uint64(nil), cols...), &ImportOptions{Clear: clear})
+}
+
+// ImportRoaring runs importRoaring on the given bits; columns are absolute.
+func (v *VerifC16Frag) ImportRoaring(rows, cols []uint64, clear bool) error {
+	bm := roaring.NewBitmap()
+	for i := range rows {
+		if _, err := bm.Add(rows[i]*ShardWidth + cols[i]%ShardWidth); err != nil {
+			return err
+		}
+	}
+	var buf bytes.Buffer
+	if _, err := bm.WriteTo(&buf); err != nil {
+		return err
+	}
+	return v.f.importRoaring(context.Background(), buf.Bytes(), clear)
+}
+
+// Rows runs fragment.rows with the filter chain column, rows, limit (each optional, in that order).
+func (v *VerifC16Frag) Rows(start uint64, col *uint64, ids []uint64, limit *uint64) []uint64 {
+	var filters []rowFilter
+	if col != nil {
+		filters = append(filters, filterColumn(*col))
+	}
+	if len(ids) > 0 {
+		filters = append(filters, filterWithRows(ids))
+	}
+	if limit != nil {
+		filters = append(filters, filterWithLimit(*limit))
+	}
+	return v.f.rows(start, filters...)
+}
+
+// MinRow / MaxRow run fragment.minRow / maxRow; filter columns are absolute, hasFilter=false means nil.
+func (v *VerifC16Frag) MinRow(hasFilter bool, filter []uint64) (uint64, uint64) {
+	if !hasFilter {
+		return v.f.minRow(nil)
+	}
+	return v.f.minRow(NewRow(filter...))
+}
+
+func (v *VerifC16Frag) MaxRow(hasFilter bool, filter []uint64) (uint64, uint64) {
+	if !hasFilter {
+		return v.f.maxRow(nil)
+	}
+	return v.f.maxRow(NewRow(filter...))
+}
